@@ -115,6 +115,12 @@ func msgRule(g *vh.Gen, key string, rs *ruleSet) {
 	}
 	var stmts []string
 	mb, from, to, subj := "~", "~", "~", "~"
+	if g.Chance(0.4) {
+		// the handler LOOKS at what it was handed before it decides (counts, iterates, reads the first recipient): reading a
+		// field must not change what a later assignment to it means
+		stmts = append(stmts, g.Pick("local n = #arg1.mailboxes", "local first = arg1.to[1]", "local seen = {}\n for i, b in ipairs(arg1.mailboxes) do seen[b] = i end",
+			"local n = #arg1.to + #arg1.mailboxes", "local f = arg1.from.address .. arg1.subject", "for _, a in ipairs(arg1.to) do local x = a.address end"))
+	}
 	if g.Chance(0.5) {
 		// also names no address policy would produce: a hook's mailbox list is taken as it is (upper case, a +tag, an
 		// @domain, a blank; two names that differ only in what a canonicaliser would cut)
